@@ -19,37 +19,8 @@ def run(rep, tier, seed):
     rep.cov['rule'] = RULES['C13'] + '; plus: every MANIFEST append/fsync and directory fsync of 2 (quick) histories fails once, after which a fault-free reopen must succeed (obsolete-file removal must stop after a failed version install)' + '; distinct_nontrivial = histories with >= 1 flush and >= 1 non-trivial compaction'
 
 def fault_segment(rep, tier, seed):
-    """No live file may be removed even when installing a version fails: fail every MANIFEST append / fsync and
-    directory fsync once (the background error must stop obsolete-file removal), then reopen without faults:
-    the open must succeed (no table named by the MANIFEST is missing)."""
-    import os, shutil
-    from concurrent.futures import ThreadPoolExecutor
-    import k3lib, c12
-    out = vlib.scratch_dir(); lib = vlib.build_lib(out, 'nothread')
-    k3 = vlib.build_k3(out, 'nothread', lib=lib); k2 = vlib.build_k2(out, 'nothread', lib=lib)
-    rng = vlib.Rng(seed ^ 0xC13F)
-    jobs = []
-    for h in range(2 if tier == 'quick' else 20):
-        opts = {'write_buffer': 65536, 'reuse_logs': 0, 'paranoid': h % 2}
-        ops, batches = k3lib.gen_write_history(rng, nops=30, reopen=False)
-        ops += ['crange 0 * *', 'crange 1 * *', 'compact * *']
-        work = os.path.join(out, 'b%d' % h); os.makedirs(work, exist_ok=True)
-        rc, o, e, evs, sh = k3lib.run_traced(k3, os.path.join(work, 'db'), opts, ops, work, fail='999999999:5:0:0', logidx=True)
-        shutil.rmtree(work, ignore_errors=True)
-        sites = [ev['idx'] for ev in evs if ev['k'] == 'I' and ((ev['name'].startswith('MANIFEST') and ev['what'] in ('write', 'fsync')) or (ev['what'] == 'fsync' and ev['name'] == '.'))]
-        if tier == 'quick' and len(sites) > 40:
-            sites = sorted(rng.choice(sites) for _ in range(40))
-        for k in sites:
-            jobs.append((k3, k2, os.path.join(out, 'f%d_%d' % (h, len(jobs))), opts, ops, batches, '%d:5:0:%d' % (k, rng.below(2)), 'h%d' % h))
-    with ThreadPoolExecutor(vlib.NCPU) as ex:
-        results = list(ex.map(c12.one_fault_run, jobs))
-    n = 0
-    for job, r in zip(jobs, results):
-        rep.evaluated(1); n += 1
-        for p in r['problems']:
-            if p['kind'] in ('reopen-failed', 'reopen-crash', 'scan-error-after-reopen', 'crash', 'hang'):
-                rep.violation({'kind': 'K3-gc-after-failed-install-' + p['kind'], 'problem': p, 'options': job[3], 'history': job[4], 'fail': job[6]})
-    rep.cov['failed_install_runs'] = n
+    import k3check
+    k3check.failed_install_segment(rep, tier, seed)
 
 def replay(rep, path):
     return k2check.replay_k2(rep, path)
